@@ -99,3 +99,9 @@ package criteria_concealment
 //@ wire AddedCriterion
 //@   property C01 C07 C18 C20
 //@   json Id=id Type=type ValuesRange=valuesRange AlternativesValues=alternativesValues MethodParameters=methodParameters
+
+// ---- registered names (what a request must say to select this object; what error messages list)
+//@ func (*CriteriaConcealment).Identifier
+//@   property C18 C20
+//@   nopanic
+//@   ensures [name] result == "criteriaConcealment"
